@@ -3,6 +3,7 @@ package verifharness
 import (
 	"context"
 	"errors"
+	"filippo.io/sunlight"
 	"fmt"
 	"sort"
 	"strings"
@@ -213,7 +214,20 @@ func runC17Script(t *testing.T, r *Run, sc *c17Script) {
 			go func() {
 				defer wg.Done()
 				defer rcancel()
-				le, err := wait(rctx)
+				var le *sunlight.LogEntry
+				var err error
+				func() {
+					defer func() {
+						if p := recover(); p != nil {
+							err = fmt.Errorf("wait function panicked: %v", p)
+							viol("wait-function-panicked", "the wait function of a submission (event %d, source %s) panicked instead of returning an outcome: %v", evIdx, source, p)
+						}
+					}()
+					le, err = wait(rctx)
+				}()
+				if stopped && err == nil {
+					viol("submission-accepted-after-stop", "a submission made after the sequencer had stopped was answered successfully (source %s, duplicate=%v)", source, ev.DupOf > 0)
+				}
 				mu.Lock()
 				s.outcomes++
 				s.done, s.doneAt, s.err = true, time.Since(t0), err
@@ -365,10 +379,25 @@ func runC17Script(t *testing.T, r *Run, sc *c17Script) {
 			// after a stop: later submissions fail, nothing is signed any more
 			s := genEntry(rng, ShapeBlobX509)
 			wait, source := li.Log.VerifAddLeafToPool(context.Background(), s, false)
-			if _, err := wait(context.Background()); err == nil {
+			if _, err := safeWait(wait, context.Background(), viol); err == nil {
 				viol("submission-accepted-after-stop", "a submission after the sequencer stopped succeeded (source %s)", source)
 			} else if sc.Stop == "readonly" && !errors.As(err, new(ctlog.SunsetLogError)) {
 				viol("readonly-error-kind", "submission after the read-only date failed with %v, not the read-only error", err)
+			}
+			// ... also a resubmission of an entry that was acknowledged before the stop
+			for _, old := range subs {
+				mu.Lock()
+				ok := old.ok
+				mu.Unlock()
+				if !ok {
+					continue
+				}
+				wait, source := li.Log.VerifAddLeafToPool(context.Background(), cloneEntry(old.e), false)
+				if _, err := safeWait(wait, context.Background(), viol); err == nil {
+					viol("submission-accepted-after-stop", "a resubmission of an acknowledged entry after the sequencer stopped succeeded (source %s)", source)
+				}
+				r.Count("resubmissions_after_stop", 1)
+				break
 			}
 			time.Sleep(3 * period)
 			synctest.Wait()
@@ -471,4 +500,16 @@ func TestC17Scripts(t *testing.T) {
 	if r.Counter("evictions") == 0 {
 		r.Inconcl("no eviction observed")
 	}
+}
+
+// safeWait calls a wait function; a panic inside it is a violation (a
+// submitter must get an outcome), not the end of the monitors.
+func safeWait(wait ctlog.VerifWaitEntryFunc, ctx context.Context, viol func(id, f string, a ...any)) (le *sunlight.LogEntry, err error) {
+	defer func() {
+		if p := recover(); p != nil {
+			err = fmt.Errorf("wait function panicked: %v", p)
+			viol("wait-function-panicked", "a wait function panicked instead of returning an outcome: %v", p)
+		}
+	}()
+	return wait(ctx)
 }
